@@ -151,6 +151,7 @@ def pick(vs, clamp=(False, False), shifted=None):
             continue
         if shifted is not None and v.shifted() != shifted:
             continue
+        v.r._used = True  # a rule was (or may be) evaluated on this case: see props_solver.path_uniformity
         out.append(v)
     return out
 
